@@ -1597,7 +1597,75 @@ func (c *EvalCtx) taintExpr(x Expr, bits uint8) {
 			}
 		}
 	}
+	// field path rooted at a struct-valued binding (value receivers and parameters)
+	if nv, ok := c.taintBound(x, bits); ok {
+		_ = nv
+		return
+	}
 	c.e.taintValue(c.st, c.eval(x), bits)
+}
+
+// taintBound rewrites the bound variable at the root of a field path x.f.g with the labelled leaf.
+func (c *EvalCtx) taintBound(x Expr, bits uint8) (Value, bool) {
+	var path []string
+	cur := x
+	for {
+		f, ok := cur.(*EField)
+		if !ok {
+			break
+		}
+		path = append([]string{f.Name}, path...)
+		cur = f.X
+	}
+	id, ok := cur.(*EIdent)
+	if !ok || len(path) == 0 {
+		return nil, false
+	}
+	root, ok := c.bind[id.Name]
+	if !ok {
+		return nil, false
+	}
+	var rec func(v Value, p []string) (Value, bool)
+	rec = func(v Value, p []string) (Value, bool) {
+		if len(p) == 0 {
+			return c.e.taintValue(c.st, v, bits), true
+		}
+		sv, ok := v.(StructV)
+		if !ok {
+			return nil, false
+		}
+		for i := 0; i < sv.T.NumFields(); i++ {
+			if sv.T.Field(i).Name() == p[0] {
+				nf, ok := rec(sv.F[i], p[1:])
+				if !ok {
+					return nil, false
+				}
+				f := append([]Value(nil), sv.F...)
+				f[i] = nf
+				return StructV{T: sv.T, F: f}, true
+			}
+			// promoted fields of embedded structs
+			if sv.T.Field(i).Embedded() {
+				if _, isS := sv.F[i].(StructV); isS {
+					if nf, ok := rec(sv.F[i], p); ok {
+						f := append([]Value(nil), sv.F...)
+						f[i] = nf
+						return StructV{T: sv.T, F: f}, true
+					}
+				}
+			}
+		}
+		return nil, false
+	}
+	nv, ok := rec(root, path)
+	if !ok {
+		return nil, false
+	}
+	c.bind[id.Name] = nv
+	if c.setVar != nil {
+		c.setVar(id.Name, nv)
+	}
+	return nv, true
 }
 
 // literalElems: the literal strings held by a (variadic) slice with concrete length.
